@@ -27,6 +27,7 @@ def mk_pc(c, running=None):
     pc.jitter = 0
     pc._running = c.choose("running", [True, False]) if running is None else running
     pc._timeout = None
+    pc._callback_active = False
     pc.io_loop = H.loop_double(c)
     pc._next_timeout = c.real("next_timeout")
     return pc
@@ -129,6 +130,8 @@ def u_schedule(c):
                 raise core.Unsupported("the timer's callback is %r: only PeriodicCallback._run is under contract here" % (getattr(timers[0].cb, "__name__", timers[0].cb),))
             c.oblige("post/timer-is-_run-at-next_timeout", timers[0].cb.__self__ is pc and timers[0].deadline is pc._next_timeout and pc._timeout is timers[0])
     elif op == "start":
+        if c.choose("already-started", [False, True]):
+            pc._timeout = loop.add_timeout(pc._next_timeout, pc._run)       # start() on a started callback replaces the pending timer (F-56)
         with c.patched((IL.PeriodicCallback, "_update_next", stub_update), (IL.IOLoop, "current", staticmethod(lambda *a, **k: loop))):
             out = c.call(c.fn(M, "PeriodicCallback.start"), pc)
         c.only_raises(out, ())
@@ -164,7 +167,11 @@ def u_run(c):
     import tornado.ioloop as IL
     pc = mk_pc(c)
     events = []
-    kind = c.choose("callback", ["returns-None", "returns-awaitable", "raises", "awaitable-raises", "stops-itself"])
+    kind = c.choose("callback", ["returns-None", "returns-awaitable", "raises", "awaitable-raises", "stops-itself", "restarts-itself"])
+    active = c.choose("an-invocation-still-in-progress", [False, True])      # (the callback was restarted while its coroutine invocation had not finished: F-56)
+    pc._callback_active = active
+    fired = pc._timeout = object()                                            # the timer whose firing is this call
+    fresh = object()
     aw = AwaitStub()
 
     def cb():
@@ -173,6 +180,9 @@ def u_run(c):
             raise ValueError("boom")
         if kind == "stops-itself":
             pc._running = False
+            pc._timeout = None
+        if kind == "restarts-itself":
+            pc._timeout = fresh          # what stop(); start() inside the callback leave behind: a fresh pending timer
         return aw if kind in ("returns-awaitable", "awaitable-raises") else None
     pc.callback = cb
     was = pc._running
@@ -190,9 +200,16 @@ def u_run(c):
     if not was:
         c.oblige("post/stopped-callback-not-run-nothing-scheduled", events == [] and sched == [])
         return
+    if active:
+        c.oblige("post/no-second-invocation-while-one-is-in-progress-and-that-one-arms-the-next-timer", events == [] and sched == [] and pc._callback_active is True)
+        return
     want = ["callback"] + (["await"] if kind in ("returns-awaitable", "awaitable-raises") else [])
     c.oblige("post/callback-once-then-awaited", events == want)
-    c.oblige("post/next-armed-once-only-after-completion", len(sched) == 1 and sched[0] == want)
+    if kind == "restarts-itself":
+        c.oblige("post/a-restart-from-inside-keeps-its-own-timer-no-second-one", sched == [] and pc._timeout is fresh)
+    else:
+        c.oblige("post/next-armed-once-only-after-completion", len(sched) == 1 and sched[0] == want)
+    c.oblige("post/invocation-over", pc._callback_active is False)
     c.oblige("post/exceptions-do-not-escape", out.returned)
 
 
@@ -291,8 +308,18 @@ def standin(tier, seed):
                     nontriv.add(("hist", seq, coro_cb))
                 if f and len(failures) < 5:
                     failures.append({"what": f, "history": list(seq) + ["coroutine" if coro_cb else "plain"]})
+    # restarts (stop(); start(), or start() twice) while a timer is pending or a coroutine invocation is still in progress (F-56): at both tiers
+    for seq in [("start", "start", "adv", "tick", "tick", "tick"), ("start", "adv", "tick", "stop", "start", "adv", "tick", "tick", "tick"),
+                ("start", "adv", "tick", "start", "adv", "tick", "tick", "tick", "adv", "tick", "tick"), ("start", "adv", "tick", "tick", "stop", "start", "start", "adv", "tick", "tick", "tick", "stop"),
+                ("start", "stop", "start", "adv", "tick", "tick", "adv", "tick", "tick", "stop")]:
+        for coro_cb in (False, True):
+            evals += 1
+            f = hist_case(seq, coro_cb)
+            nontriv.add(("restart", seq, coro_cb))
+            if f and len(failures) < 5:
+                failures.append({"what": f, "history": list(seq) + ["coroutine" if coro_cb else "plain"]})
     return {"evaluations": evals, "distinct_nontrivial": len(nontriv), "failures": failures, "samples": samples,
             "rule": "real float _update_next on sampled periods (1 us .. 1 min) and epoch-scale starts, 6 steps each over {on time, late, very late, "
                     "clock backwards}; plus all start/stop/advance/tick histories up to length %d on a virtual-time loop with plain and coroutine "
-                    "callbacks; non-trivial = missed periods / backwards clock / a stop after an advance" % (5 if tier == "quick" else 7),
+                    "callbacks, and 5 longer restart histories (start twice, stop-start while a coroutine invocation is in progress); non-trivial = missed periods / backwards clock / a stop after an advance" % (5 if tier == "quick" else 7),
             "wall_s": round(time.time() - t0, 2)}
